@@ -147,8 +147,12 @@ package lfs
 // same priority"; it is established only by this function returning nil)
 //@ func validatePointerExtensions
 //@   props C07
+//@   requires @inv forall_int(k, exts[k], 0 <= k && k < len(exts) ==> exts[k] != nil)
 //@   modifies fresh
 //@   ensures @def result == nil ==> exts_unique(exts)
+//@   ensures @local result == nil ==> forall_int(i, exts[i], forall_int(j, exts[j], 0 <= i && i < j && j < len(exts) ==> exts[i].Priority != exts[j].Priority))
+//@   loop 1 invariant forall_int(k, exts[k], 0 <= k && k <= rangeindex ==> has(m, exts[k].Priority))
+//@   loop 1 invariant forall_int(i, exts[i], forall_int(j, exts[j], 0 <= i && i < j && j <= rangeindex ==> exts[i].Priority != exts[j].Priority))
 
 //@ func (*Pointer).Encoded
 //@   props C07 C01
